@@ -286,7 +286,8 @@ const UNI_MIN: UniCfg = UniCfg { lines_full: true, cap: 200_000, compound: false
 
 fn find_violation(mapping: &[u8], class: &str) -> Option<(Rel, String, Option<Query>)> {
     let mut rng = Rng::new(1);
-    let queries = universe(mapping, &mut rng, &UNI_MIN);
+    let big = UniCfg { lines_full: false, cap: 40_000, compound: false };
+    let queries = universe(mapping, &mut rng, if mapping.len() > 200_000 { &big } else { &UNI_MIN });
     let mut st = Stats::default();
     for w in [Rel::Pinned, Rel::Current] {
         let Ok(bytes) = write_with(w, mapping) else { continue };
@@ -301,9 +302,11 @@ fn find_violation(mapping: &[u8], class: &str) -> Option<(Rel, String, Option<Qu
 }
 
 pub fn minimise(v: &Violation) -> Violation {
+    start_minimise_clock(40);
     let Some(mapping) = bytes_from_json(&v.case["mapping"]) else { return v.clone() };
     let class = v.class.clone();
-    if find_violation(&mapping, &class).is_none() {
+    if mapping.len() > 1_000_000 || find_violation(&mapping, &class).is_none() {
+        // (a multi-megabyte mapping is reported as found: each ddmin step would cost seconds)
         return v.clone();
     }
     let mut budget = 300usize;
@@ -376,7 +379,7 @@ pub fn main(env: &Env) -> i32 {
     let corpus = gen::corpus(thorough);
     let uni = UniCfg { lines_full: !thorough, cap: if thorough { 2500 } else { 4000 }, compound: false };
     rep.rule = format!(
-        "{} seeded histories, each over 1..3 generated mappings (0..{} classes x 0..{} members) with 6..18 deploy/write/read events plus a final audit that writes every mapping with both releases and reads it with the other one; {} corpus files likewise. \
+        "{} seeded histories, each over 1..3 generated mappings (0..{} classes x 0..{} members) with 6..18 deploy/write/read events plus a final audit that writes every mapping with both releases and reads it with the other one; {} corpus files likewise, plus huge generated mappings (> 65 536 classes and members; 1 in quick, 3 in thorough; 40 000 sampled queries each). \
          Every cross-release read compares the full primitive query universe of the mapping (all names + near misses x lines 0..66, range boundaries +-1, extremes; cap {} per mapping). \
          distinct_nontrivial = sum over distinct mappings of 2 x (queries in its universe) = distinct (writer release, file, query) comparisons.",
         n,
@@ -385,10 +388,16 @@ pub fn main(env: &Env) -> i32 {
         corpus.len(),
         uni.cap
     );
-    let n_total = n + corpus.len() as u64;
+    let n_huge = if thorough { 3 } else { 1 };
+    let n_total = n + corpus.len() as u64 + n_huge;
     let (st, mut vs) = run_indexed(n_total, env.workers, 1, |i, st, vs| {
         let mut rng = Rng::new(run_seed(seed, "C10", i));
-        if i < n {
+        if i >= n + corpus.len() as u64 {
+            // scale: > 65 536 classes and members in one file
+            let m = gen::gen_huge(&mut rng);
+            let big = UniCfg { lines_full: false, cap: 40_000, compound: false };
+            simulate_history(i, &mut rng, &[m], &big, st, vs, false);
+        } else if i < n {
             let k = rng.range(1, 3);
             let mappings: Vec<Vec<u8>> = (0..k).map(|_| if thorough { gen::gen_case(&mut rng, 20, 16).1 } else { gen::gen_case(&mut rng, 10, 10).1 }).collect();
             simulate_history(i, &mut rng, &mappings, &uni, st, vs, i < 2);
